@@ -20,10 +20,15 @@ int main(int argc, char** argv) {
 		}
 		s.coeffs.assign(s.ncoeffs(), 0.25f);
 		Table src; PVA::build(src, s, PAD_ZERO);
-		int naux = fi % 5 == 0 ? 50 : (int)rng.below(8);
+		// fi % 5 == 3 / 4: many keys of one kind whose values fill their cards, so that each key's real cost is as close to what
+		// the estimate allows per key as it can get (a key the estimate forgets cannot hide in the slack of the others)
+		int kind = fi % 5 == 3 ? 1 : fi % 5 == 4 ? 0 : -1;
+		int naux = fi % 5 == 0 ? 50 : kind >= 0 ? 60 + (int)rng.below(200) : (int)rng.below(8);
 		for (int a = 0; a < naux; a++) {
 			std::string key, val;
-			switch (a % 4) {
+			if (kind == 1) { key = "LONGKEY" + std::to_string(1000 + a); val = std::string(67 - key.size(), 'h'); }
+			else if (kind == 0) { key = "S" + std::to_string(1000 + a); val = std::string(68, 's'); }
+			else switch (a % 4) {
 				case 0: key = "K" + std::to_string(a); val = std::string(1 + rng.below(68), 'v'); break;
 				case 1: key = "AVERYLONGHIERARCHKEYWORDNUMBER" + std::to_string(100 + a); val = std::string(rng.below(30), 'w'); break;
 				case 2: key = "KEY" + std::to_string(10000 + a); val = ""; break;
